@@ -1,7 +1,7 @@
 """C34 Real-time schedulers never run an action early or after cancellation (Engine DET: fake clock, controlled timer threads)."""
 from __future__ import annotations
 
-from datetime import timedelta
+from datetime import timedelta, timezone
 
 from hypothesis import strategies as st
 
@@ -14,7 +14,8 @@ RULE = (
     "A program is run against ONE scheduler object (sk: 'timeout' = TimeoutScheduler, 'newthread' = NewThreadScheduler, "
     "'pool1'/'pool2' = ThreadPoolScheduler(1|2) on Engine DET's cooperative executor, 'eventloop' = EventLoopScheduler; "
     "'immediate' = ImmediateScheduler) by a main thread and optionally a second, cancelling thread. Operations: "
-    "['s', kind, d, body] = schedule / schedule_relative(d ms as float | timedelta) / schedule_absolute(EPOCH + d ms) with an "
+    "['s', kind, d, body] = schedule / schedule_relative(d ms as float | timedelta) / schedule_absolute(EPOCH + d ms as an aware datetime in UTC, +02:00 or "
+    "-05:30) with an "
     "action that logs start, runs `body` (cancels, and nested schedule operations issued on the scheduler object the action "
     "was handed) and logs end; ['x', ref] = dispose the disposable returned for schedule operation number ref (if that call "
     "has returned); ['w', ms] = sleep ms of fake time (this is what lets the fake clock reach a due time while the program "
@@ -32,7 +33,9 @@ RULE = (
     "call clock for schedule(); (2) at most one start per action; (3) an action whose dispose() RETURNED while the clock was "
     "still < due never starts; (3b) (from the title 'never ... after cancellation', for cancellations that certainly "
     "precede the loop's cancel test) an action does not start on a thread after an earlier action finished on that thread "
-    "if its dispose() had returned before that earlier action finished; (4) at quiescence of a complete run every action whose schedule call returned and whose "
+    "if its dispose() had returned before that earlier action finished; (6) lateness where the fake clock makes it exact (timeout, newthread, eventloop; "
+    "not the pools): an action starts exactly at max(due, call clock) unless the thread that runs it was inside earlier "
+    "actions (sleeping in their bodies) from that instant until the start; (4) at quiescence of a complete run every action whose schedule call returned and whose "
     "disposable was never disposed has run exactly once; (5) no deadlock, no escaped exception. ImmediateScheduler: a call "
     "with due <= now runs the action inline (start and end between call and return, same thread), a call with a positive "
     "delay raises WouldBlockException and the action never starts. "
@@ -42,14 +45,17 @@ RULE = (
 )
 ASSUMPTIONS = [
     "a dispose() issued at or after the due instant is 'best effort' (docstrings) and only constrained by at-most-once",
-    "late starts are allowed (e.g. a busy single-worker pool); only early starts violate the property",
+    "late starts are allowed on the pools (a worker may be occupied by another loop) and when the designated thread is "
+    "busy with earlier actions; elsewhere the docstrings' 'executed at duetime' is exact under the fake clock",
     "C-level atomicity of CPython (GIL build); a source line of reactivex code is the unit of interleaving; the cooperative "
     "Timer/executor of vlib/det.py mirror the stdlib ones (Timer.run = wait(interval) then test the cancel flag then call)",
     "bounds: <=2 program threads, <=10 schedule operations, nesting depth 1, <=2 preemptions exhaustive / <=3 drawn",
     "EventLoopScheduler.dispose() and periodic scheduling are covered by C31/C35, not here",
 ]
 
-TIMEOUT = {"quick": 240, "thorough": 3600}  # runner: wall-clock cap per shard
+TIMEOUT = {"quick": 400, "thorough": 3600}  # runner: wall-clock cap per shard
+# absolute due times are given as aware datetimes: 'abs' in UTC, 'abse' / 'absw' the same instant expressed in +02:00 / -05:30
+ABS_TZ = {"abs": timezone.utc, "abse": timezone(timedelta(hours=2)), "absw": timezone(timedelta(hours=-5, minutes=-30))}
 SKS = ("timeout", "newthread", "pool1", "pool2", "eventloop")
 number, now_us = schedrun.number, schedrun.now_us
 
@@ -107,8 +113,8 @@ class World:
                         dsp = sch.schedule_relative(d / 1000.0, action)
                     elif kind == "reltd":
                         dsp = sch.schedule_relative(timedelta(milliseconds=d), action)
-                    elif kind == "abs":
-                        dsp = sch.schedule_absolute(det.EPOCH + timedelta(milliseconds=d), action)
+                    elif kind in ABS_TZ:
+                        dsp = sch.schedule_absolute((det.EPOCH + timedelta(milliseconds=d)).astimezone(ABS_TZ[kind]), action)
                     else:
                         raise HarnessError(f"bad kind {kind}")
                 except WouldBlockException:
@@ -147,6 +153,7 @@ def analyse(world, complete=True):
     start = [None] * n
     end = [None] * n
     due = [None] * n
+    call_clk = [None] * n
     timed = [False] * n
     facts = set()
     pending = {}
@@ -156,12 +163,15 @@ def analyse(world, complete=True):
         if kind == "call":
             k, d = meta[sid]
             call[sid] = i
-            due[sid] = d * 1000 if k == "abs" else clk + max(0, d) * 1000 if k in ("rel", "reltd") else clk
+            call_clk[sid] = clk
+            due[sid] = d * 1000 if k in ABS_TZ else clk + max(0, d) * 1000 if k in ("rel", "reltd") else clk
             timed[sid] = due[sid] > clk
             if timed[sid]:
-                facts.add("timed:" + ("abs" if k == "abs" else "rel"))
-            elif k == "abs":
+                facts.add("timed:" + ("abs" if k in ABS_TZ else "rel"))
+            elif k in ABS_TZ:
                 facts.add("abs-not-future")
+            if k in ("abse", "absw"):
+                facts.add("abs-non-utc-zone")
         elif kind == "ret":
             ret[sid] = i
         elif kind == "wouldblock":
@@ -204,6 +214,32 @@ def analyse(world, complete=True):
                 facts.add("race-ran-after-dispose-returned")  # the whole dispose() fell between the cancel test and the invocation
         else:
             facts.add("cancel-immediate-or-late")
+    # (6) lateness, where the fake clock makes it exact: time only advances while EVERY thread is parked, so on a
+    # scheduler that gives the action its own timer / loop thread (timeout, newthread) or one designated thread
+    # (eventloop) an action starts exactly at max(due, call clock) unless that thread was inside earlier actions
+    # (sleeping in their bodies) from that instant until the start.  Pools are excluded: a worker may legitimately be
+    # occupied by another loop that is waiting for its own item.
+    if world.case["sk"] in ("timeout", "newthread", "eventloop"):
+        by_thread = {}
+        for z in range(n):
+            if start[z] is not None:
+                by_thread.setdefault(rec[start[z]][2], []).append((start[z], rec[start[z]][3], None if end[z] is None else rec[end[z]][3], z))
+        for x in range(n):
+            if start[x] is None:
+                continue
+            want = max(due[x], call_clk[x])
+            got = rec[start[x]][3]
+            if got == want:
+                if timed[x]:
+                    facts.add("on-time-exactly")
+                continue
+            t = want
+            for si, sclk, eclk, z in sorted(by_thread[rec[start[x]][2]]):
+                if si < start[x] and eclk is not None and sclk <= t < eclk:
+                    t = eclk
+            if t < got:
+                return ("late", f"action #{x} {meta[x]} due at {want}us started at {got}us although its thread {rec[start[x]][2]} was not inside an earlier action from {t}us on"), facts
+            facts.add("late-explained")
     if complete:
         cancelled = {c[4] for c in cancels}
         for y in range(n):
@@ -255,7 +291,7 @@ def run_imm(case):
     for i, (kind, sid, tid, clk) in enumerate(rec):
         if kind == "call":
             k, d = meta[sid]
-            due = d * 1000 if k == "abs" else clk + max(0, d) * 1000 if k in ("rel", "reltd") else clk
+            due = d * 1000 if k in ABS_TZ else clk + max(0, d) * 1000 if k in ("rel", "reltd") else clk
             open_calls.append((sid, due > clk, clk))
         elif kind == "start":
             if sid in started:
@@ -296,11 +332,11 @@ def _S(kind="now", d=0, body=()):
 def _det_programs():
     yield [[_S("rel", 2), ["w", 2], ["x", 0]]]  # dispose at due: the race with the wake-up
     yield [[_S("reltd", 3), ["w", 1], ["x", 0]]]  # dispose before due
-    yield [[["w", 1], _S("abs", 3), ["w", 2], ["x", 0]]]  # absolute, dispose at due
+    yield [[["w", 1], _S("absw", 3), ["w", 2], ["x", 0]]]  # absolute (aware datetime in a non-UTC zone), dispose at due
     yield [[_S("rel", 2), _S("now"), ["w", 2], ["x", 0]]]
     yield [[_S("rel", 2), _S("reltd", 2)], [["w", 2], ["x", 1], ["x", 0]]]  # cancelling thread, both at due
     yield [[_S("now", 0, [_S("rel", 2)]), ["w", 1], ["x", 1]]]  # nested schedule on the handed scheduler, cancelled before due
-    yield [[_S("rel", 3), ["w", 1], _S("now"), _S("abs", 2)]]  # new work arrives while the loop sleeps
+    yield [[_S("rel", 3), ["w", 1], _S("now"), _S("abse", 2)]]  # new work arrives while the loop sleeps
     yield [[_S("rel", 1, [["x", 1]]), _S("rel", 2)], [["w", 1], ["x", 0]]]  # an action cancels a later one; dispose after start
     # two items due together (one batch of an event loop): the first action sleeps, then cancels the second / a second
     # thread cancels it meanwhile / the same with nested items on the scheduler handed to the action (NewThread, pool)
@@ -317,7 +353,7 @@ def _det_enum(tier):
 
 
 _KD = [["now", 0], ["now", 0], ["rel", 0], ["rel", -1], ["rel", 1], ["rel", 2], ["reltd", 2], ["reltd", 3], ["rel", 5],
-       ["abs", 0], ["abs", 2], ["abs", 3], ["abs", 4], ["abs", 6]]  # fmt: skip
+       ["abs", 0], ["abs", 2], ["abse", 3], ["absw", 4], ["abs", 6], ["absw", 1], ["abse", 2]]  # fmt: skip
 _x = st.tuples(st.just("x"), st.integers(0, 7)).map(list)
 _w = st.tuples(st.just("w"), st.sampled_from([1, 1, 2, 2, 3, 5])).map(list)
 _leaf = st.builds(lambda k: ["s", k[0], k[1], []], st.sampled_from(_KD))
@@ -360,7 +396,7 @@ _det_gen = st.builds(
     schedrun.sched_strategy(3, max_tid=6),
 )
 
-_IMM_ALPHA = [_S("now"), _S("rel", 0), _S("rel", 2), _S("reltd", -1), _S("abs", 0), _S("abs", 2), ["w", 2], _S("now", 0, [_S("rel", 1), _S("now")])]
+_IMM_ALPHA = [_S("now"), _S("rel", 0), _S("rel", 2), _S("reltd", -1), _S("abse", 0), _S("absw", 2), ["w", 2], _S("now", 0, [_S("rel", 1), _S("now")])]
 
 
 def _imm_enum(tier):
